@@ -159,6 +159,14 @@ impl Family for C11Family {
                 j.fail("required-rk-not-refused", format!("a resident key is required but the store supports non-discoverable credentials only; result {} and saved {:?}", short_result(&reg.result), saved));
             }
         }
+        let refused_for_option = match &reg.result {
+            OpResult::Reg(Err(e)) => e.code == Some(0x2B),
+            OpResult::Mc(Err(e)) => e.code == 0x2B,
+            _ => false,
+        };
+        if refused_for_option && !(expected_rk && cap == Capability::OnlyNonDiscoverable) && c.actors[0].verification == Some(true) {
+            j.fail("rk-option-mapping", format!("the WebAuthn mapping gives rk={expected_rk} for this request on a {cap:?} store, which no authenticator option forbids, but the registration was refused with unsupported-option (the resident-key option sent does not follow the mapping)"));
+        }
         if reg.result.is_ok() {
             if let Some(sent) = rk_sent {
                 if sent != expected_rk {
